@@ -31,7 +31,7 @@ Definition on_wire (r : request) : request :=
 
 Definition model_obs (c : input) : obs :=
   let '(tbl, o, a) := c in option_map on_wire (call (mn_of tbl) o a).
-(* bits 1..7: the guards of C04_partial; bit 8: the call is NOT well typed (outside the theorem) *)
+(* bits 1..8: the guards of C04_partial; bit 9: the call is NOT well typed (outside the theorem) *)
 Definition guards_of (c : input) : list bool :=
   let '(tbl, o, a) := c in guards (mn_of tbl) o a ++ [well_typed (mn_of tbl) o a].
 
